@@ -10,8 +10,9 @@ echo "suite-with-change: $s"
 mv /tmp/demo_$lid.rs.aside join/tests/demo_$lid.rs
 d1=$(cargo test -p join --offline --test demo_$lid --no-fail-fast 2>&1 | grep -E "^test result|error(\[|:)" | head -3 | tr '\n' ' ')
 echo "demo-with-change: $d1"
-git stash -q
+# (not `git stash`: the stash is shared by all worktrees of a repository, and concurrent users pop each other's entries)
+git diff > /tmp/verify_seed_$lid.patch; git checkout -q -- .
 d2=$(cargo test -p join --offline --test demo_$lid --no-fail-fast 2>&1 | grep -E "^test result|error(\[|:)" | head -3 | tr '\n' ' ')
 echo "demo-without-change: $d2"
-git stash pop -q
+git apply /tmp/verify_seed_$lid.patch && rm /tmp/verify_seed_$lid.patch
 git status --short | head -5
